@@ -1,4 +1,5 @@
 import SignaloModel.Proofs.OwnedProofs
+import SignaloModel.Proofs.OwnedMedian
 /-!
 # C19 — Windowed filters drop every owned sample exactly once (ownership logic; partial)
 
@@ -7,7 +8,8 @@ live-instance ledger of an instrumented sample type must equal the sum of `owned
 instances after every operation of any program of filter / clone / reset / guts round trip / drop
 (leak: ledger too high; double drop or read of a dead value: ledger error count).
 Property theorems (statements printed by `#check`, axioms by `#print axioms`):
-what is owned after construction, after reset, after a step of the mean / convolution / delay filters;
+what is owned after construction, after reset, after a step of the mean / convolution / delay filters, and by the
+median filter in every state reachable from `Default` (`min k N` values: one per window sample);
 copies (clone, guts) are the identity on model states, so they own what the original owns (`run_append`).
 Not modelled: initialisation / aliasing behaviour of the `MaybeUninit` block in `median.rs`.
 -/
@@ -19,6 +21,8 @@ open SignaloModel
 #check @Registry.owned_convolve_step
 #check @Registry.owned_delay_step
 #check @Registry.owned_mean_step
+#check @MedianL.owned_of_rep
+#check @Registry.owned_median_registry
 #check @Registry.run_append
 
 #print axioms Registry.owned_init
@@ -28,3 +32,5 @@ open SignaloModel
 #print axioms Registry.owned_delay_step
 #print axioms Registry.owned_mean_step
 #print axioms Registry.run_append
+#print axioms MedianL.owned_of_rep
+#print axioms Registry.owned_median_registry
